@@ -31,6 +31,11 @@ type Check struct {
 	// FreeRun (with Bubble): no cooperative scheduler, only the bubble's fake
 	// clock; for checks whose only client is the body itself.
 	FreeRun bool
+	// AltBody, AltPct: a second layer of the same property, run instead of Body in
+	// AltPct percent of the runs (drawn from the tape, so replay takes the same
+	// branch), as a free run (fake clock only).
+	AltBody func(r *Run)
+	AltPct  int
 	// Body executes one simulated run. All choices come from r.
 	Body func(r *Run)
 	// Liveness: a stuck run is a violation of this property (otherwise it is
@@ -460,9 +465,14 @@ func Exec(t *testing.T, c *Check, seed uint64, tier string, sc *Scenario) *Resul
 	r.Disk = newDisk(r)
 	r.Disk.install(hooks)
 
+	freeRun := c.FreeRun
+	theBody := c.Body
+	if c.AltBody != nil && r.tape.Intn("gen", 100) < int(envInt("VERIF_ALT_PCT", int64(c.AltPct))) {
+		freeRun, theBody = true, c.AltBody
+	}
 	body := func() {
 		defer r.recoverTask()
-		c.Body(r)
+		theBody(r)
 	}
 	finish := func() {
 		r.mu.Lock()
@@ -500,7 +510,7 @@ func Exec(t *testing.T, c *Check, seed uint64, tier string, sc *Scenario) *Resul
 		res.Findings = r.findings
 		res.FindingsN = r.findingsN
 	}
-	if c.Bubble && c.FreeRun {
+	if c.Bubble && freeRun {
 		// fake clock and quiescence only: the body is the single client, goroutines
 		// of the system run freely between its (sequential) requests
 		func() {
